@@ -1120,11 +1120,25 @@ struct Gen {
         TNode                 *cur = nullptr;
         std::vector<int>       vars;
         size_t                 pushed = 0;
+        // one deep case in seven goes far beyond 255 open tags: a few loops with 250-262 <if> levels in front of the first and / or
+        // between the first and the second (what the tag records count in 8 bits must not limit what is expanded)
+        std::vector<int> forced; // 1 loop, 0 if; empty: drawn per level as before
+        if (levels == 13) {
+            const unsigned pre = (tags % 2 == 0) ? 250 + unsigned(tags) % 13 : 0;
+            const unsigned mid = (pre == 0 || tags % 3 == 0) ? 250 + unsigned(sc.counter) % 13 : 0;
+            forced.insert(forced.end(), pre, 0);
+            forced.push_back(1);
+            forced.insert(forced.end(), mid, 0);
+            forced.push_back(1);
+            forced.push_back(1);
+            levels    = unsigned(forced.size());
+            very_deep = true;
+        }
         for (unsigned i = 0; i < levels; ++i) {
             auto n = std::make_unique<TNode>();
             ++tags;
             TList *body;
-            if (e.chance(75) || i + 1 == levels) {
+            if (forced.empty() ? (e.chance(75) || i + 1 == levels) : (forced[i] == 1)) {
                 n->k            = TNode::Loop;
                 n->has_set      = true;
                 n->path.head    = "pair";
@@ -1186,7 +1200,7 @@ struct Gen {
         deep = true;
         return top;
     }
-    bool deep{false};
+    bool deep{false}, very_deep{false};
 
     void gen_list(GenScope &sc, TList &out, int depth, bool inside_if) {
         if (depth > max_depth) {
@@ -1372,7 +1386,7 @@ struct Scenario {
     std::string expect;
     int  tags{0}, resolved{0}, depth{0};
     unsigned kinds{0};
-    bool loop_in_if{false}, sort{false}, group{false}, unresolved{false}, deep{false};
+    bool loop_in_if{false}, sort{false}, group{false}, unresolved{false}, deep{false}, very_deep{false};
     bool pointers{false}; // C17 only: containers reached through pointer values (a function of the case bytes, no entropy is spent)
 };
 
@@ -1396,6 +1410,7 @@ void make_scenario(const Case &c, Scenario &s) {
     s.group      = g.uses_group;
     s.unresolved = g.has_unresolved;
     s.deep       = g.deep;
+    s.very_deep  = g.very_deep;
 #ifdef VERIF_C17
     {
         std::string key(c.bytes.begin(), c.bytes.end());
@@ -1579,7 +1594,7 @@ struct H {
 #endif
         Scenario s;
         make_scenario(c, s);
-        if (s.text.size() > 6000) {
+        if (s.text.size() > (s.very_deep ? 16000u : 6000u)) {
             ctx.discard();
         }
         if (s.tags >= 2 && s.resolved >= 1) {
@@ -1595,6 +1610,7 @@ struct H {
         ctx.label("uses-group", s.group);
         ctx.label("has-unresolved-path", s.unresolved);
         ctx.label("nesting>=8", s.depth >= 8);
+        ctx.label("nesting>255", s.very_deep);
         std::string got;
         switch (c.width) {
             case 1: got = render_with_library<char>(s, ctx); break;
